@@ -84,8 +84,15 @@ def run_impl(c):
     if k == "start":
         t = _timing(c)
         return vf.try_impl(lambda: read_dtm(t.start_time))
+    def _make_irregular(seq):
+        # the named constructor, or the general one with copy_timestamps spelled out: the same acceptance
+        via = c.get("via", "named")
+        if via == "named":
+            return Timing.create_with_irregular_interval(seq)
+        from nitypes.waveform import SampleIntervalMode
+        return Timing(SampleIntervalMode.IRREGULAR, timestamps=seq, copy_timestamps=(via == "ctor_copy"))
     if k == "irregular":
-        return vf.try_impl(lambda: (Timing.create_with_irregular_interval([mk_dtm(c["fam"], v * UNIT[c["fam"]] + c.get("base", 0)) for v in c["l"]]), 0)[1])
+        return vf.try_impl(lambda: (_make_irregular([mk_dtm(c["fam"], v * UNIT[c["fam"]] + c.get("base", 0)) for v in c["l"]]), 0)[1])
     if k == "irregular_bad":
         import datetime as _dt
         bad = {"int": lambda v: v, "none": lambda v: None, "str": lambda v: "abc"[v % 3], "float": lambda v: float(v),
@@ -94,7 +101,7 @@ def run_impl(c):
                "dt64": lambda v: __import__("numpy").datetime64(_dt.datetime(1904, 1, 1) + _dt.timedelta(seconds=v), "us"),
                "duck": lambda v: _Duck(mk_dtm(c["fam"], v * UNIT[c["fam"]]))}[c["bad"]]
         seq = [bad(v) if j in c["at"] else mk_dtm(c["fam"], v * UNIT[c["fam"]]) for j, v in enumerate(c["l"])]
-        return vf.try_impl(lambda: (Timing.create_with_irregular_interval(seq if c.get("seq", "list") == "list" else tuple(seq)), 0)[1])
+        return vf.try_impl(lambda: (_make_irregular(seq if c.get("seq", "list") == "list" else tuple(seq)), 0)[1])
     raise AssertionError(k)
 
 
@@ -212,7 +219,7 @@ def gen_cases(rng, tier):
     for fam in fams:
         for ln in range(0, 6):
             for l in itertools.product((0, 1, 2), repeat=ln):
-                cases.append({"k": "irregular", "fam": fam, "l": list(l)})
+                cases.append({"k": "irregular", "fam": fam, "l": list(l), "via": rng.choice(["named", "named", "ctor_copy", "ctor_nocopy"])})
         for _ in range(300 if not big else 5000):
             ln = rng.randrange(3, 12)
             mode = rng.randrange(4)
@@ -225,7 +232,8 @@ def gen_cases(rng, tier):
                 l = a + [a[-1]] * rng.randrange(1, 3) + sorted((rng.randrange(a[-1] + 1) for _ in range(ln - len(a))), reverse=True)
             else:
                 l = [rng.randrange(4) for _ in range(ln)]
-            cases.append({"k": "irregular", "fam": fam, "l": l, "base": rng.choice([0, 3502915200 * UNIT[fam]])})
+            cases.append({"k": "irregular", "fam": fam, "l": l, "base": rng.choice([0, 3502915200 * UNIT[fam]]),
+                          "via": rng.choice(["named", "named", "ctor_copy", "ctor_nocopy"])})
     # sequences holding non-datetime elements, in monotonic and in zig-zag order: TypeError either way
     for _ in range(250 if not big else 4000):
         ln = rng.randrange(1, 7)
@@ -234,7 +242,8 @@ def gen_cases(rng, tier):
         at = list(range(ln)) if rng.random() < 0.4 else sorted(rng.sample(range(ln), rng.randrange(1, ln + 1)))
         if bad in ("dt64", "duck") and ln > 1 and rng.random() < 0.6:
             at = [j for j in at if j > 0] or [ln - 1]     # a genuine datetime first, the foreign element later
-        cases.append({"k": "irregular_bad", "fam": rng.choice(fams), "l": l, "bad": bad, "at": at, "seq": rng.choice(["list", "tuple"])})
+        cases.append({"k": "irregular_bad", "fam": rng.choice(fams), "l": l, "bad": bad, "at": at, "seq": rng.choice(["list", "tuple"]),
+                      "via": rng.choice(["named", "named", "ctor_copy", "ctor_nocopy"])})
     # regular windows that END exactly at (or within one step of) the family's range limit: all n values fit
     for _ in range(200 if not big else 3000):
         fam = rng.choice(fams)
